@@ -28,7 +28,7 @@ var c07Faults = []struct{ Point, Kind string }{
 	{"fetch", "404"}, {"fetch", "500x3"}, {"fetch", "500x2-then-ok"}, {"fetch", "not-http"}, {"fetch", "no-start-time"}, {"fetch", "truncated-body"}, {"fetch", "reset-mid-body"},
 	{"backend", "refused"},
 	{"backend", "garbage-status"}, {"backend", "huge-headers"}, {"backend", "close-before-headers"}, {"backend", "rst"},
-	{"backend", "short-content-length"}, {"backend", "rst-mid-chunk"}, {"backend", "bad-chunk-size"}, {"backend", "one-byte-then-trailers"}, {"backend", "lying-content-encoding"},
+	{"backend", "short-content-length"}, {"backend", "rst-mid-chunk"}, {"backend", "bad-chunk-size"}, {"backend", "one-byte-then-trailers"}, {"backend", "lying-content-encoding"}, {"backend", "malformed-set-cookie"},
 	{"backend-h2", "abort-before-headers"}, {"backend-h2", "abort-mid-body"}, {"backend-h2", "huge-headers"}, {"backend-h2", "slow-then-abort"},
 	{"upload", "500x3"}, {"upload", "404"}, {"upload", "reset-at-0"}, {"upload", "reset-at-4096"}, {"upload", "reset-at-end"}, {"upload", "stall"},
 	{"shim", "data-malformed-json"}, {"shim", "data-unknown-session"}, {"shim", "poll-unknown-session"}, {"shim", "close-unknown-session"}, {"shim", "open-backend-refuses-upgrade"}, {"shim", "open-slow-failure-overlapping-opens"}, {"shim", "malformed-data-on-live-session"}, {"shim", "backend-closes-session-normally"}, {"shim", "backend-closes-session-going-away"}, {"shim", "open-malformed-url"}, {"shim", "data-wrong-shape"}, {"shim", "backend-stalls-then-closes-during-client-burst"}, {"shim", "backend-stalls-then-resets-during-client-burst"},
@@ -122,6 +122,10 @@ func c07Lane_(r *core.Run, agentBin string, md *fakes.Metadata, li int, ln c07La
 			conn.Write([]byte("HTTP/1.1 200 OK\r\nTransfer-Encoding: chunked\r\n\r\nzz\r\nabc\r\n0\r\n\r\n"))
 		case "one-byte-then-trailers":
 			conn.Write([]byte("HTTP/1.1 200 OK\r\nTrailer: X-A, X-B\r\nTransfer-Encoding: chunked\r\n\r\n1\r\nx\r\n0\r\nX-A: 1\r\nX-B: 2\r\n\r\n"))
+			return true, true
+		case "malformed-set-cookie":
+			conn.Write([]byte("HTTP/1.1 200 OK\r\nSet-Cookie: =oops; Path=/\r\nSet-Cookie: ; HttpOnly\r\nSet-Cookie: a b=c\r\nSet-Cookie: \r\nSet-Cookie: name-only\r\n" +
+				"Set-Cookie: q=\"unterminated; Path=/\r\nSet-Cookie: ok=1; Path=/; Max-Age=notanumber\r\nSet-Cookie: fine=1; Path=/\r\nContent-Length: 2\r\n\r\nok"))
 			return true, true
 		case "lying-content-encoding":
 			conn.Write([]byte("HTTP/1.1 200 OK\r\nContent-Encoding: gzip\r\nContent-Length: 9\r\n\r\nnot-gzip!"))
@@ -484,6 +488,12 @@ func c07Lane_(r *core.Run, agentBin string, md *fakes.Metadata, li int, ln c07La
 				}
 			case "fetch":
 				px.Enqueue(id, tokRequest("GET", "ff"+fmt.Sprint(inj), 100, 0, "c07.example", nil, nil), "")
+				if f.Kind == "not-http" {
+					// several garbled fetches at once, next to the healthy lanes' concurrent fetches
+					for k := 0; k < 7; k++ {
+						px.Enqueue(fmt.Sprintf("%s-x%d", id, k), tokRequest("GET", fmt.Sprintf("ff%dx%d", inj, k), 100, 0, "c07.example", nil, nil), "")
+					}
+				}
 				up, got = px.Wait(id, 1500*time.Millisecond)
 			case "upload":
 				px.Enqueue(id, tokRequest("GET", "fu"+fmt.Sprint(inj), []int{100, 5000, 20000}[inj%3], 0, "c07.example", nil, nil), "")
